@@ -78,9 +78,14 @@ def observe(c, typ, seed, samples, dose):
         ev["z_mean_milli"] = int(round(1000 * zmean))
         ev["z_var_milli"] = int(round(1000 * zvar))
         if seed is not None:
+            # the same measurement object asked twice (a call must not leave anything behind that changes the next one)
+            same = measurement(typ, M, [M], False)
+            r1 = np.asarray(same.poisson_noise(total_dose=dose, samples=samples, seed=seed).array, dtype=np.float64)
+            r2 = np.asarray(same.poisson_noise(total_dose=dose, samples=samples, seed=seed).array, dtype=np.float64)
+            ev["same_object_repro_ok"] = bool(np.array_equal(r1, r2) and np.array_equal(r1, e))
             e2, _ = noisy(typ, M, [M], False, seed, samples, dose)
             l2, _ = noisy(typ, M, chunks, True, seed, samples, dose)
-            ev["repro_ok"] = bool(np.array_equal(e, e2) and np.array_equal(l, l2))
+            ev["repro_ok"] = bool(np.array_equal(e, e2) and np.array_equal(l, l2) and ev["same_object_repro_ok"])
             ev["lazy_eq_eager"] = bool(np.array_equal(e, l))
             other = [M] if len(chunks) > 1 else ([1] * M if M > 1 else [M])
             l3, _ = noisy(typ, M, other, True, seed, samples, dose)
@@ -128,6 +133,8 @@ def judge(ctx: Ctx, evs):
             family = {"lazy_differs_from_eager", "depends_on_chunking", "distinct_measurements_share_their_noise"}
             tg = tags_for(e, cl)
             tg["only_chunk_dependence_clauses"] = set(cl) <= family
+            # a single-block case meets several blocks only in its chunking-independence comparison (against one member per block)
+            tg["multi_block"] = bool(e["multi_block"] or (set(cl) == {"depends_on_chunking"} and e["case"]["M"] > 1))
             # the transform holds one seed (given, or drawn once when samples > 1) that every block re-uses
             tg["block_seed_shared"] = bool(e["seed_fixed"] or e["samples"] > 1)
             ctx.report(tg, {"event": e}, f"{e['typ']} {json.dumps(e['case'])} seed_fixed={e['seed_fixed']} samples={e['samples']}: {','.join(cl)} "
